@@ -1,4 +1,5 @@
 pub mod adapters;
 pub mod api;
+pub mod bmodel;
 pub mod explore;
 pub mod model;
